@@ -131,6 +131,11 @@ def check(res, tier):
     FWD = 'Die Funktion nachher mit dem Parameter a vom Typ Zahl, gibt eine Zahl zurück,\nwird später definiert\nund kann so benutzt werden:\n\t"nachher <a>"\n\n'
     GEN = ('Die generische Funktion gen mit dem Parameter a vom Typ T, gibt ein T zurück, macht:\n%s\tGib a zurück.\nUnd kann so benutzt werden:\n\t"gen <a>"\n\n')
     corpus = [
+        ("alias-only-a-parameter:function", {"main.ddp": H + 'Die Funktion nur mit dem Parameter x vom Typ Zahl, gibt eine Zahl zurück, macht:\n\tGib x zurück.\nUnd kann so benutzt werden:\n\t"<x>"\n\nSchreibe 8 auf eine Zeile.\n'}),
+        ("alias-only-a-parameter:function-second-alias", {"main.ddp": H + 'Die Funktion nur mit dem Parameter x vom Typ Zahl, gibt eine Zahl zurück, macht:\n\tGib x zurück.\nUnd kann so benutzt werden:\n\t"nur <x>" oder\n\t"<x>"\n\nSchreibe (nur 8) auf eine Zeile.\n'}),
+        ("alias-only-a-parameter:kombination", {"main.ddp": H + 'Wir nennen die Kombination aus\n\tder Zahl wert mit Standardwert 0,\neinen Halter, und erstellen sie so:\n\t"<wert>"\n\nSchreibe 8 auf eine Zeile.\n'}),
+        ("alias-wrong-parameter-count", {"main.ddp": H + 'Die Funktion nur mit dem Parameter x vom Typ Zahl, gibt eine Zahl zurück, macht:\n\tGib x zurück.\nUnd kann so benutzt werden:\n\t"nur <x> <y>"\n\nSchreibe 8 auf eine Zeile.\n'}),
+        ("alias-empty", {"main.ddp": H + 'Die Funktion nur mit dem Parameter x vom Typ Zahl, gibt eine Zahl zurück, macht:\n\tGib x zurück.\nUnd kann so benutzt werden:\n\t""\n\nSchreibe 8 auf eine Zeile.\n'}),
         ("forward-declaration-never-defined", {"main.ddp": H + FWD + 'Schreibe "x" auf eine Zeile.\n'}),
         ("forward-declaration-never-defined-but-called", {"main.ddp": H + FWD + 'Schreibe (nachher 1) auf eine Zeile.\n'}),
         ("forward-declaration-defined", {"main.ddp": H + FWD + 'Schreibe (nachher 1) auf eine Zeile.\n\nDie Funktion nachher macht:\n\tGib a plus 1 zurück.\n'}),
@@ -209,6 +214,10 @@ def check(res, tier):
         st["%s:%s" % (label, "faulty" if a["faulty"] else "clean")] += 1
         res.nontrivial("%s:%d:%s" % (label, min(len(diags), 9), a["faulty"]))
         problems = []
+        for d in diags:
+            if d["level"] not in (lv_error, lv_warn):
+                problems.append("a diagnostic was delivered that is neither a warning nor an error (level %s, code %s: %r): it is shown like an "
+                                "error but does not make the compilation fail" % (d["level"], d.get("code"), d.get("msg", "")[:80]))
         if bool(a["faulty"]) != has_error:
             problems.append("Faulty is %s but %s error-level diagnostic was delivered" % (a["faulty"], "an" if has_error else "no"))
         texts = {}
